@@ -655,7 +655,7 @@ def gen_script(rng, heavy, failing):
 
 
 def gen_case(rng, big, T):
-    with_io = rng.random() < 0.5
+    with_io = rng.random() < 0.7
     nmods = rng.choice([1, 2, 2, 3, 3, 4]) if with_io else 1
     mods = []
     if with_io:
@@ -867,7 +867,7 @@ def run(ctx):
         for fn in sorted(os.listdir(cdir)):
             cases.append(json.load(open(os.path.join(cdir, fn)))['case'])
     cases += [dict(c) for c in BOUNDARY]
-    n = ctx.budget(60, 600)
+    n = ctx.budget(140, 600)
     for _ in range(n):
         c = gen_case(rng, big, T)
         if zero_interval(c):
@@ -876,7 +876,7 @@ def run(ctx):
         cases.append(c)
 
     t0 = _time.time()
-    wall_budget = 75 if ctx.tier == 'quick' else 800
+    wall_budget = 60 if ctx.tier == 'quick' else 800
     shrunk = 0
     for ci, case in enumerate(cases):
         if _time.time() - t0 > wall_budget and ci >= len(cases) - n:
